@@ -39,6 +39,18 @@ NEEDS = {
    "transactions on; a connector that has a queued change but has never been processed (just constructed) is deleted with deleteConnector() BEFORE the next processTransaction(): use-after-free in processTransaction(), double free in ~Router.  Connectors routed at least once, and transactions-off mode, are unaffected."),
  "C20-astar-turn-exemption-axis": ("cola/libavoid/makepath.cpp A* turn pruning: the first-segment exemption of the horizontal-to-vertical block tests the source's column instead of its row",
    "orthogonal routing with a source that may only leave horizontally (ConnDirLeft/Right), cheapest route bending at a vertex with no further shape edge in the turn direction, compared with the same scene transposed or quarter-turned: cost 395 vs 305.  Mirrors, translation and repetition stay clean."),
+ "C09-thirdpass-border-xy": ("cola/libvpsc/rectangle.cpp removeoverlaps third pass re-applies setXBorder(yBorder+EXTRA_GAP) instead of xBorder",
+   "removeoverlaps with thirdPass=true, Rectangle::xBorder > Rectangle::yBorder (by more than 1e-3) and a pair whose y ranges still overlap after the vertical pass (resolved horizontally in the third pass): they stay overlapping by about 2*(xBorder-yBorder).  Equal borders (every in-tree caller) hide it."),
+ "C11-abs-pin-max-offset": ("cola/libavoid/connectionpin.cpp ShapeConnectionPin::position(): absolute x offset at the right border computed as min.x + m_x_offset - inside instead of max.x - inside",
+   "a pin created with proportional=false and xOffset == ATTACH_POS_MAX_OFFSET (-1): it lands left of the shape instead of on its right border; numeric offsets (including the full width), proportional pins and all y offsets are unaffected."),
+ "C17-fd-zero-length-kept": ("cola/libcola/colafd.cpp ConstrainedFDLayout::computePathLengths replaces only negative edge lengths by 1 (<= 0 became < 0)",
+   "ConstrainedFDLayout with a non-empty edge-length array containing an entry of exactly 0 on an edge between distinct nodes: the ideal-distance matrix (readLinearD) has 0 there and every path through it is too short; negative, positive and default lengths and the raw shortest-path functions are unaffected."),
+ "C03-firstpointabove-boundary-endpoint": ("cola/libavoid/scanline.cpp Node::firstPointAbove: curr->max[dim] <= pos became < pos",
+   "orthogonal routing, a free (pin-less) endpoint lying exactly on the right or bottom side of a shape's routing box, strictly between its corners, with the cheapest path heading through that shape: the endpoint sees straight through the shape.  Endpoints strictly outside or inside, left/top sides and polyline routing are unaffected."),
+ "C07-multisep-equality-dropped": ("cola/libcola/compound_constraints.cpp MultiSeparationConstraint::generateSeparationConstraints() no longer passes `equality` to vpsc::Constraint",
+   "a MultiSeparationConstraint built with equality=true, followed by run() with stress wanting the two alignment lines further apart than sep: the gap ends larger than sep and nothing is reported; makeFeasible() alone stays correct (its path still passes equality)."),
+ "C13-resize-br-substitute": ("cola/libtopology/resize.cpp SubstituteNodes::operator()(EdgePoint*): BR corner attached to the RHS sliver in both axes (pos=RHS instead of dim==HORIZONTAL?RHS:LHS)",
+   "topology::applyResizes (a cola::Resize / ResizeMap, not a move) on a node that has an edge bending round its bottom-right corner, vertical pass only: the bend jumps to the opposite corner and the path cuts through the resized node."),
 }
 
 # usage: python3 tools/seed_meta.py  -- (re)writes seeded/<name>/meta.json from the table above and seeded/RESULTS.txt
